@@ -193,8 +193,21 @@ func (g *dgen) genNamed(i int) {
 	name := fmt.Sprintf("N%d", i)
 	switch g.pick("namedkind", 5) {
 	case 0:
-		g.add(Decl{Name: name, Text: "type " + name + " uint64\n"})
+		if len(g.scalarNamed) > 0 && g.chance("namedOverNamed", 45) {
+			// a defined type over another defined (non-struct) type, each with a method of the same
+			// name: two definitions <type>__get, each exactly once (seeded change C04-13)
+			base := g.scalarNamed[g.pick("overn", len(g.scalarNamed))]
+			g.add(Decl{Name: name, Text: "type " + name + " " + base + "\n", Deps: []string{base}})
+		} else {
+			g.add(Decl{Name: name, Text: "type " + name + " uint64\n"})
+		}
 		g.scalarNamed = append(g.scalarNamed, name)
+		if g.chance("namedMethod", 60) {
+			m := name + "__get"
+			g.add(Decl{Name: m, Text: "func (v " + name + ") get() uint64 {\n\treturn uint64(v) + 1\n}\n", Deps: []string{name}})
+			u := "use" + name
+			g.add(Decl{Name: u, Text: "func " + u + "(v " + name + ") uint64 {\n\treturn v.get()\n}\n", Deps: []string{m, name}})
+		}
 	case 1:
 		g.add(Decl{Name: name, Text: "type " + name + " []byte\n"})
 	case 2:
